@@ -258,6 +258,7 @@ def run_bane(workdir, tag, fits_path, shape, step, box, cores, nslice, mask, sch
     layout = None
     ymins = None
     todo = list(schedule) if schedule else []
+    giveup = max(3.0, watchdog / 2.0)
     controlled = set((i, ph) for i, ph, _ in todo)
     granted = set()            # (ymin, phase)
     grants = []                # actual grant order (index, phase)
@@ -310,7 +311,7 @@ def run_bane(workdir, tag, fits_path, shape, step, box, cores, nslice, mask, sch
                 y, k = settle_next
                 cnt = sum(1 for yy, _ in arrived if yy == y)
                 finished = False
-                if cnt > k or finished or now - last_progress > patience:
+                if cnt > k or finished or now - last_progress > giveup:
                     settle_next = None
                 else:
                     ready = False
@@ -324,8 +325,9 @@ def run_bane(workdir, tag, fits_path, shape, step, box, cores, nslice, mask, sch
                         if (i, ph) in pending:
                             pick = k
                             break
-                    if pick is None:
-                        # nothing that is scheduled has arrived and nothing moves: release everything
+                    if pick is None and now - last_progress > giveup:
+                        # nothing that is scheduled has arrived and nothing has moved for a long time
+                        # (the workers are not merely computing): release everything
                         todo = []
                 if pick is not None:
                     i, ph, settle = todo.pop(pick)
@@ -399,3 +401,588 @@ def run_bane(workdir, tag, fits_path, shape, step, box, cores, nslice, mask, sch
     return dict(outcome=outcome, events=read_events(vdir) if hook else [], grants=grants, result=result, layout=layout,
                 leaked_in_child=(result or {}).get('leaked', []), leaked_after=mine, new_shm=sorted(after - before),
                 wall=round(wall, 3), out=out, stderr=stderr_tail)
+
+
+# =============================================================================================
+# layout: the real layout code, executed in-process with a fake pool (no fork, no file)
+# =============================================================================================
+
+def observe_layout(rows, step, cores, nslice, mode='ok'):
+    """run the real filter_mc_sharemem with a fake multiprocessing context; return what it set up.
+    mode: ok | raise (get() raises) | interrupt (get() raises KeyboardInterrupt) | setupfail (Pool() raises)"""
+    from AegeanTools import BANE
+    seen = {'ev': []}
+
+    class FakeResult(object):
+        def get(self, timeout=None):
+            if mode == 'raise':
+                raise RuntimeError('worker failed')
+            if mode == 'interrupt':
+                raise KeyboardInterrupt()
+            seen['ev'].append('mapGet')
+            return None
+
+    class FakePool(object):
+        def map_async(self, func, iterable, chunksize=None):
+            tasks = list(iterable)
+            seen['regions'] = [[int(t[1][0]), int(t[1][1])] for t in tasks]
+            return FakeResult()
+
+        def close(self):
+            seen['ev'].append('pclose')
+
+        def join(self):
+            seen['ev'].append('pjoin')
+
+        def terminate(self):
+            seen['ev'].append('poolTerminate')
+
+    class FakeCtx(object):
+        def Barrier(self, parties, *a, **kw):
+            seen['parties'] = int(parties)
+            return None
+
+        def Pool(self, processes=None, *a, **kw):
+            seen['processes'] = processes
+            if mode == 'setupfail':
+                raise OSError('cannot start pool')
+            seen['ev'].append('setup')
+            return FakePool()
+    class FakeShm(object):
+        """in-process stand-in for SharedMemory (the layout sweep must not touch /dev/shm)"""
+        def __init__(self, name=None, create=False, size=0):
+            self.buf = memoryview(bytearray(int(size)))
+            self.kind = 'Bkg' if str(name).startswith('ibkg') else 'Rms'
+            seen['ev'].append('create' + self.kind)
+
+        def close(self):
+            seen['ev'].append('close' + self.kind)
+
+        def unlink(self):
+            seen['ev'].append('unlink' + self.kind)
+    import logging
+    real = BANE.multiprocessing.get_context
+    real_shm = BANE.SharedMemory
+    BANE.multiprocessing.get_context = lambda method=None: FakeCtx()
+    BANE.SharedMemory = FakeShm
+    logging.disable(logging.CRITICAL)
+    try:
+        BANE.filter_mc_sharemem('nofile.fits', (step, step), (3 * step, 3 * step), cores, (rows, 2), nslice=nslice)
+        seen['outcome'] = 'normal'
+    except SystemExit:
+        seen['outcome'] = 'normal'      # sys.exit(1) at the very end of the finally block, after the release
+    except BaseException as e:  # noqa
+        if mode == 'ok':
+            raise
+        seen['outcome'] = 'raised'
+        seen['etype'] = type(e).__name__
+    finally:
+        logging.disable(logging.NOTSET)
+        BANE.multiprocessing.get_context = real
+        BANE.SharedMemory = real_shm
+    return seen
+
+
+def layout_sweep(ctx, triples):
+    """triples: (rows, step, cores, nslice|None)"""
+    lines, meta = [], []
+    for rows, step, cores, nslice in triples:
+        case = dict(kind='layout', rows=rows, step=step, cores=cores, nslice=nslice)
+        try:
+            seen = observe_layout(rows, step, cores, nslice)
+        except Exception as e:
+            ctx.fail('spec', case, f"filter_mc_sharemem raised {type(e).__name__}: {e} while setting up the layout",
+                     dict(what='layout-raises'))
+            ctx.case(case)
+            continue
+        eff = cores if (nslice is None or cores == 1) else nslice
+        regs = seen.get('regions') or []
+        mins = [r[0] for r in regs]
+        maxs = [r[1] for r in regs]
+        lines.append(f"eff {cores} {'none' if nslice is None else nslice}")
+        lines.append(f"layout {rows} {eff} {step}")
+        lines.append("spec %d %s / %s" % (rows, " ".join(map(str, mins)), " ".join(map(str, maxs))))
+        meta.append((case, seen, eff, mins, maxs))
+    outs = ctx.driver.batch(lines) if lines else []
+    for k, (case, seen, eff, mins, maxs) in enumerate(meta):
+        oe, ol, osp = outs[3 * k:3 * k + 3]
+        n = len(mins)
+        ctx.count('layout')
+        nt = None
+        if n >= 2 and (n > eff or case['rows'] % max(eff, 1) != 0):
+            nt = ('layout', case['rows'], case['step'], eff)
+        # Spec on the implementation's own layout
+        if osp != 'ok':
+            ctx.fail('spec', dict(case, regions=list(zip(mins, maxs))),
+                     f"the stripes handed to the workers do not tile [0,{case['rows']}): ymins={mins} ymaxs={maxs}",
+                     dict(what='layout-not-tiling'))
+        if seen.get('parties') != n:
+            ctx.fail('spec', dict(case, parties=seen.get('parties'), tasks=n),
+                     f"barrier parties={seen.get('parties')} but {n} tasks are submitted: the barrier can never fill "
+                     f"(or fills early)", dict(what='parties-vs-tasks'))
+        # correspondence with the regenerated model
+        if oe != str(eff):
+            ctx.fail('corr', case, f"effective slices: implementation {eff}, model {oe}", dict(what='eff'))
+        f = dict(x.split('=', 1) for x in ol.split()) if ol.startswith('w=') else None
+        if f is None:
+            ctx.fail('corr', case, f"driver: {ol}", dict(what='layout-driver'))
+        else:
+            mm = [int(x) for x in f['mins'].split(',') if x]
+            mx = [int(x) for x in f['maxs'].split(',') if x]
+            if (mm, mx) != (mins, maxs):
+                ctx.fail('corr', dict(case, impl=[mins, maxs], model=[mm, mx]),
+                         f"layout differs: implementation ymins={mins} ymaxs={maxs}; regenerated model ymins={mm} ymaxs={mx}",
+                         dict(what='layout'))
+            if int(f['w']) < 1:
+                ctx.fail('corr', case, f"regenerated width {f['w']} < 1: the IEEE assumption of the layout theorems fails",
+                         dict(what='width'))
+            if f['w'] != f['wx']:
+                ctx.count('layout:float-width-differs-from-exact')
+            if n > eff:
+                ctx.count('layout:realised>requested')
+        ctx.case(dict(case, regions=[mins, maxs][:1]), nontrivial_key=nt, sample_every=211)
+
+
+def exit_paths(ctx):
+    """the exit paths of filter_mc_sharemem (normal, worker exception, KeyboardInterrupt, pool set-up failure),
+    executed in-process with fakes: every created segment must be closed and unlinked (Spec), and the sequence
+    of events must be an execution of the Lean control-flow model `parentProg` (correspondence)."""
+    lines, meta = [], []
+    for mode in ('ok', 'raise', 'interrupt', 'setupfail'):
+        case = dict(kind='exitpath', mode=mode)
+        try:
+            seen = observe_layout(64, 8, 2, 2, mode=mode)
+        except Exception as e:
+            ctx.fail('spec', case, f"unexpected {type(e).__name__}: {e}", dict(what='exitpath-raises', mode=mode))
+            continue
+        ev = seen['ev']
+        for kind in ('Bkg', 'Rms'):
+            if 'create' + kind in ev:
+                k0 = ev.index('create' + kind)
+                if 'unlink' + kind not in ev[k0:] or 'close' + kind not in ev[k0:]:
+                    ctx.fail('spec', dict(case, events=ev), f"exit path '{mode}': segment {kind} created but not closed+unlinked: {ev}",
+                             dict(what='shm-leak', mode=mode))
+        if mode == 'raise' and seen.get('outcome') != 'raised':
+            ctx.fail('spec', dict(case, events=ev), "a worker exception re-raised by get() was swallowed by filter_mc_sharemem",
+                     dict(what='fault-swallowed', mode=mode))
+        toks, k = [], 0
+        while k < len(ev):
+            if ev[k] == 'pclose' and k + 1 < len(ev) and ev[k + 1] == 'pjoin':
+                toks.append('collect')
+                k += 2
+            elif ev[k] == 'pclose':
+                toks.append('poolClose')
+                k += 1
+            else:
+                toks.append(ev[k])
+                k += 1
+        lines.append(f"exitpath {seen.get('outcome')} " + " ".join(toks))
+        meta.append((case, ev))
+    outs = ctx.driver.batch(lines) if lines else []
+    for (case, ev), o in zip(meta, outs):
+        if o != 'ok':
+            ctx.fail('corr', dict(case, events=ev), f"exit path {case['mode']} is not an execution of the control-flow model: {o}: {ev}",
+                     dict(what='exitpath-model', mode=case['mode']))
+        ctx.count('exitpath')
+        ctx.case(dict(case, events=ev), nontrivial_key=('exitpath', case['mode']))
+
+
+# =============================================================================================
+# protocol runs
+# =============================================================================================
+
+def perms_sample(rng, n, k):
+    allp = list(itertools.permutations(range(n)))
+    if k >= len(allp):
+        return allp
+    return rng.sample(allp, k)
+
+
+def sched_orders(n, order1, order2, mask):
+    """arrival order at barrier 1 = order1, at barrier 2 = order2; departures uncontrolled"""
+    s = [(i, 'b1', 'gap') for i in order1]
+    if mask:
+        s += [(i, 'b2', 'gap') for i in order2]
+    return s
+
+
+def sched_fast(n, order1, x, mask):
+    """stripe x is released from barrier 1 first and runs ahead to barrier 2 while the others are still
+    held right after their wait() (where the pinned code calls reset())"""
+    s = [(i, 'b1', 'gap') for i in order1]
+    s += [(x, 'a1', 'next')]
+    if mask:
+        s += [(x, 'b2', 'gap')]
+    s += [(i, 'a1', 'gap') for i in order1 if i != x]
+    return s
+
+
+def sched_fault(n, x, ph, mask):
+    """the others reach (and enter) the barrier first, the faulty stripe comes last"""
+    others = [i for i in range(n) if i != x]
+    s = []
+    if ph in ('p1', 'b1'):
+        s += [(i, 'b1', 'gap') for i in others] + [(x, ph, 'gap')]
+    elif ph in ('a1', 'b2') and mask:
+        s += [(i, 'a1', 'next') for i in others] + [(i, 'b2', 'gap') for i in others] + [(x, ph, 'gap')]
+    else:
+        s += [(x, ph, 'gap')]
+    return s
+
+
+class Config(object):
+    def __init__(self, rows, cols, step, box, cores, nslice, mask, entry='mc'):
+        self.rows, self.cols, self.step, self.box = rows, cols, step, box
+        self.cores, self.nslice, self.mask, self.entry = cores, nslice, mask, entry
+
+    def d(self):
+        return dict(rows=self.rows, cols=self.cols, step=self.step, box=self.box, cores=self.cores,
+                    nslice=self.nslice, mask=self.mask, entry=self.entry)
+
+    @staticmethod
+    def of(d):
+        return Config(d['rows'], d['cols'], d['step'], d['box'], d['cores'], d['nslice'], d['mask'], d.get('entry', 'mc'))
+
+
+def do_run(ctx, work, tag, cfg, schedule=None, faults=(), hook=True, watchdog=WATCHDOG):
+    fpath = os.path.join(work, f'img_{cfg.rows}_{cfg.cols}.fits')
+    if not os.path.exists(fpath):
+        make_fits(fpath, cfg.rows, cfg.cols, seed=cfg.rows * 1000 + cfg.cols)
+    r = run_bane(work, tag, fpath, (cfg.rows, cfg.cols), (cfg.step, cfg.step), (cfg.box, cfg.box), cfg.cores,
+                 cfg.nslice, cfg.mask, schedule=schedule, faults=faults, hook=hook, entry=cfg.entry, watchdog=watchdog,
+                 patience=max(0.35, watchdog / 20.0))
+    r['fits'] = fpath
+    return r
+
+
+def trace_tokens(r):
+    """hook events as driver tokens; None if an event names an unknown stripe"""
+    lay = r.get('layout') or {}
+    regs = lay.get('regions') or []
+    ymins = [x[0] for x in regs]
+    toks = []
+    for t, _, y, ph in r['events']:
+        if y not in ymins:
+            return None
+        i = ymins.index(y)
+        if t == 'E':
+            toks.append(f"{ph}.{i}")
+        elif t == 'F':
+            toks.append(f"F.{i}")
+        elif t == 'T':
+            return None
+    return toks
+
+
+def check_maps(r, cfg):
+    """every pixel written, mask exactly the non-finite input pixels; returns error text or None"""
+    import numpy as np
+    from astropy.io import fits
+    try:
+        bkg = np.load(os.path.join(r['out'], 'bkg.npy'))
+        rms = np.load(os.path.join(r['out'], 'rms.npy'))
+    except Exception as e:
+        return f"maps not returned: {e}"
+    img = fits.getdata(r['fits'])
+    if bkg.shape != img.shape or rms.shape != img.shape:
+        return f"map shape {bkg.shape} != image shape {img.shape}"
+    bad_in = ~np.isfinite(img)
+    if cfg.mask:
+        if not np.array_equal(~np.isfinite(bkg), bad_in) or not np.array_equal(~np.isfinite(rms), bad_in):
+            rows = sorted(set(np.where((~np.isfinite(rms)) != bad_in)[0].tolist()))[:6]
+            return f"mask of the maps differs from the non-finite pixels of the input (rows {rows})"
+    unwritten = (rms == 0) & (bkg == 0)
+    if unwritten.any():
+        rows = sorted(set(np.where(unwritten)[0].tolist()))
+        return f"{int(unwritten.sum())} pixels never written (still 0 in both maps), rows {rows[:6]}"
+    return None
+
+
+def judge(ctx, cfg, r, schedule, faults, hookmode, ref, trace_out=None, pinned_out=None):
+    """Spec on the implementation's outcome + correspondence with the model's verdict on the trace."""
+    lay = r.get('layout') or {}
+    regs = lay.get('regions') or []
+    n = len(regs)
+    procs = lay.get('processes')
+    case = dict(kind='run', cfg=cfg.d(), schedule=[list(x) for x in (schedule or [])], faults=[list(x) for x in faults],
+                hook=hookmode, regions=regs, parties=lay.get('parties'), processes=procs)
+    fault_raised = any(t == 'F' for t, _, _, _ in r['events'])
+    outcome = r['outcome']
+    res = r.get('result') or {}
+    emsg = (res.get('emsg') or '')
+    ok = True
+    sig_base = dict(stripes_gt_cores=bool(n > cfg.cores), fault=bool(fault_raised))
+    if outcome in ('child-died', 'interrupt', 'exit'):
+        ctx.fail('spec', case, f"BANE ended with {outcome}: {emsg[-300:]} {r.get('stderr', '')[-300:]}",
+                 dict(sig_base, what=outcome))
+        return False
+    if outcome == 'hang':
+        detail = (f"BANE did not return within {_WD[0] or WATCHDOG:.0f}s (and {3 * (_WD[0] or WATCHDOG):.0f}s on a re-run) of the last released synchronisation point "
+                  f"({n} stripes, pool of {procs}, barrier parties {lay.get('parties')}, cores={cfg.cores}, "
+                  f"fault raised: {fault_raised}); events: {' '.join(trace_tokens(r) or [])}")
+        if pinned_out:
+            detail += f"; pinned-protocol model on this trace: {pinned_out}"
+        ctx.fail('spec', case, detail, dict(sig_base, what='hang'))
+        ok = False
+    elif outcome == 'exception' and not fault_raised:
+        bb = 'BrokenBarrierError' in emsg
+        ctx.fail('spec', case, f"BANE raised without any worker fault being injected ({'BrokenBarrierError' if bb else res.get('etype')}): "
+                 f"...{emsg[-400:]}", dict(sig_base, what='spurious-exception', broken_barrier=bb))
+        ok = False
+    elif outcome == 'done' and fault_raised:
+        ctx.fail('spec', case, "a worker raised (injected fault) but filter_mc_sharemem returned normally",
+                 dict(sig_base, what='fault-swallowed'))
+        ok = False
+    if outcome != 'hang' and r.get('leaked_in_child'):
+        ctx.fail('spec', case, f"shared memory left behind after the call ended with '{outcome}': {r['leaked_in_child']}",
+                 dict(sig_base, what='shm-leak'))
+        ok = False
+    if outcome == 'done' and not fault_raised:
+        err = check_maps(r, cfg)
+        if err:
+            ctx.fail('spec', case, err, dict(sig_base, what='maps'))
+            ok = False
+        h = res.get('hash')
+        key = (cfg.rows, cfg.cols, cfg.step, cfg.box, cfg.mask, json.dumps(regs))
+        if key not in ref:
+            ref[key] = (h, case)
+        elif ref[key][0] != h:
+            ctx.fail('spec', dict(case, other=ref[key][1]),
+                     "maps differ between two runs with the same stripe layout (different schedule or worker count): "
+                     "not bit-identical", dict(sig_base, what='schedule-dependent-maps'))
+            ok = False
+    # ---- correspondence: is the trace a run of the model, and does the model allow the outcome? ----
+    if trace_out is not None:
+        want = {'done': 'done', 'exception': 'exception', 'hang': 'hang'}.get(outcome)
+        if trace_out.startswith('notrun'):
+            ctx.fail('corr', case, f"the observed event trace is not a run of the protocol model: {trace_out}; "
+                     f"events: {' '.join(trace_tokens(r) or [])}", dict(sig_base, what='trace-not-a-run'))
+            ok = False
+        elif trace_out.startswith('run'):
+            allowed = trace_out.split(None, 1)[1].split('|') if len(trace_out.split()) > 1 else []
+            if want not in allowed:
+                ctx.fail('corr', case, f"the model allows {allowed} after this trace, the implementation ended with {outcome}; "
+                         f"events: {' '.join(trace_tokens(r) or [])}", dict(sig_base, what='outcome-vs-model'))
+                ok = False
+        else:
+            ctx.fail('corr', case, f"driver: {trace_out}", dict(sig_base, what='driver'))
+            ok = False
+    return ok
+
+
+def plan_runs(ctx, cfgs, thorough):
+    """list of (cfg, n_expected, schedule, faults, hookmode, label)"""
+    rng = ctx.rng
+    plan = []
+    for cfg, n in cfgs:
+        plan.append((cfg, None, (), 'off', 'free-nohook'))
+        plan.append((cfg, None, (), 'log', 'free-hook'))
+        if n >= 2 and cfg.nslice is not None:
+            for extra in ((1, 3) if thorough else (2,)):
+                c2 = Config(cfg.rows, cfg.cols, cfg.step, cfg.box, max(n, cfg.cores) + extra, cfg.nslice, cfg.mask, cfg.entry)
+                plan.append((c2, None, (), 'off', f'cores+{extra}'))
+        if n < 2 or n > 4:
+            continue
+        if n <= 3 or thorough:
+            k1, k2 = 24, 24
+        else:
+            k1, k2 = 4, 2
+        p1 = perms_sample(rng, n, k1)
+        for o1 in p1:
+            for o2 in (perms_sample(rng, n, k2) if cfg.mask else [tuple(range(n))]):
+                plan.append((cfg, sched_orders(n, o1, o2, cfg.mask), (), 'sched', 'orders'))
+        for x in range(n):
+            o1 = rng.choice(list(itertools.permutations(range(n))))
+            plan.append((cfg, sched_fast(n, o1, x, cfg.mask), (), 'sched', 'fast-stripe'))
+        fl = [(x, ph) for x in range(n) for ph in PHASES]
+        if not (thorough or n == 2):
+            fl = rng.sample(fl, 6)
+        for x, ph in fl:
+            plan.append((cfg, sched_fault(n, x, ph, cfg.mask), ((x, ph),), 'sched', 'fault'))
+    # the most diagnostic runs first (the plan is executed in chunks and stops early once something went wrong)
+    prio = {'free-nohook': 0, 'free-hook': 0, 'fault': 1, 'fast-stripe': 1, 'orders': 3}
+    plan = [p for _, p in sorted(enumerate(plan), key=lambda kp: (prio.get(kp[1][4], 2), kp[0]))]
+    return plan
+
+
+_BATCH = [0]
+
+
+_WD = [None]
+
+
+def calibrate(ctx):
+    """watchdog from the wall time of one plain run on this machine right now (other builders share it)"""
+    if _WD[0] is None:
+        work = os.path.join(ctx.tmpdir(), 'calib')
+        os.makedirs(work, exist_ok=True)
+        t = []
+        for k in range(2):
+            r = do_run(ctx, work, f'c{k}', Config(40, 24, 8, 24, 2, 2, True), hook=False, watchdog=60)
+            t.append(r['wall'])
+        _WD[0] = max(WATCHDOG, 8.0 * max(t))
+        ctx.note(f"calibration run {max(t):.2f}s -> watchdog {_WD[0]:.1f}s")
+    return _WD[0]
+
+
+def execute(ctx, plan, parallel=5):
+    """run the plan (in parallel), then validate traces through the driver and judge"""
+    from concurrent.futures import ThreadPoolExecutor
+    wd = calibrate(ctx)
+    _BATCH[0] += 1
+    work = os.path.join(ctx.tmpdir(), f'batch{_BATCH[0]}')
+    os.makedirs(work, exist_ok=True)
+    results = [None] * len(plan)
+
+    def one(k):
+        cfg, schedule, faults, hookmode, label = plan[k]
+        return do_run(ctx, work, f'run{k}', cfg, schedule=schedule, faults=faults, hook=(hookmode != 'off'), watchdog=wd)
+    # in chunks; once something has gone wrong (a hang, an exception without a fault, a swallowed fault) the
+    # rest of the plan is not run: the failures found so far are confirmed and reported (fail fast)
+    CH = 30
+    for lo in range(0, len(plan), CH):
+        ks = list(range(lo, min(lo + CH, len(plan))))
+        with ThreadPoolExecutor(max_workers=parallel) as ex:
+            for k, r in zip(ks, ex.map(one, ks)):
+                results[k] = r
+        bad = 0
+        for k in range(0, ks[-1] + 1):
+            r = results[k]
+            fr = any(t == 'F' for t, _, _, _ in r['events'])
+            if r['outcome'] == 'hang' or (r['outcome'] == 'exception') != fr or r['outcome'] in ('child-died',):
+                bad += 1
+        if bad and ks[-1] + 1 < len(plan):
+            ctx.note(f"{bad} runs went wrong among the first {ks[-1] + 1} of {len(plan)}: not running the rest of the plan")
+            plan = plan[:ks[-1] + 1]
+            results = results[:ks[-1] + 1]
+            break
+    # confirm hangs with a longer watchdog before believing them (machine load): up to 12 hung runs are
+    # re-run in parallel (one per configuration first); a hung run that was not re-run is believed only if a
+    # re-run of the same configuration hung again, otherwise it is dropped (counted, not judged)
+    hung = [k for k, r in enumerate(results) if r['outcome'] == 'hang']
+    ckey = lambda k: json.dumps(plan[k][0].d(), sort_keys=True)  # noqa: E731
+    firsts, rest, seen_cfg = [], [], set()
+    for k in hung:
+        (rest if ckey(k) in seen_cfg else firsts).append(k)
+        seen_cfg.add(ckey(k))
+    chosen = (firsts + rest)[:12]
+
+    def again(k):
+        cfg, schedule, faults, hookmode, label = plan[k]
+        return do_run(ctx, work, f'run{k}b', cfg, schedule=schedule, faults=faults, hook=(hookmode != 'off'),
+                      watchdog=3 * wd)
+    with ThreadPoolExecutor(max_workers=parallel) as ex:
+        redo = dict(zip(chosen, ex.map(again, chosen)))
+    confirmed_cfg = set()
+    for k, r2 in redo.items():
+        if r2['outcome'] == 'hang':
+            confirmed_cfg.add(ckey(k))
+        else:
+            ctx.count('hang-not-confirmed-on-rerun')
+            results[k] = r2
+    for k in hung:
+        if k not in redo and ckey(k) not in confirmed_cfg:
+            results[k] = dict(results[k], outcome='unconfirmed-hang')
+    lines, idx = [], {}
+    for k, r in enumerate(results):
+        cfg, schedule, faults, hookmode, label = plan[k]
+        lay = r.get('layout') or {}
+        regs = lay.get('regions') or []
+        toks = trace_tokens(r) if hookmode != 'off' else None
+        if toks is not None and 1 <= len(regs) <= 6 and lay.get('parties') is not None and lay.get('processes'):
+            base = f"{len(regs)} {lay['parties']} {lay['processes']} {1 if cfg.mask else 0} " + " ".join(toks)
+            idx[k] = len(lines)
+            lines.append("trace 0 1 " + base)
+            lines.append("trace 1 0 " + base)
+    outs = ctx.driver.batch(lines) if (lines and ctx.driver_ok) else []
+    ref = {}
+    for k, r in enumerate(results):
+        cfg, schedule, faults, hookmode, label = plan[k]
+        t_out = p_out = None
+        if k in idx and outs:
+            t_out, p_out = outs[idx[k]], outs[idx[k] + 1]
+        if r['outcome'] == 'unconfirmed-hang':
+            ctx.count('outcome:unconfirmed-hang (dropped)')
+            ctx.case(dict(cfg=cfg.d(), label=label, outcome=r['outcome']))
+            continue
+        judge(ctx, cfg, r, schedule, faults, hookmode, ref, t_out, p_out)
+        n = len((r.get('layout') or {}).get('regions') or [])
+        ctx.count('run:' + label)
+        ctx.count('outcome:' + str(r['outcome']))
+        ctx.count(f'stripes:{n}')
+        nt = None
+        if n >= 2 and (schedule or faults or n > cfg.cores):
+            nt = ('run', json.dumps(cfg.d(), sort_keys=True), json.dumps(schedule), json.dumps(faults), hookmode)
+        ctx.case(dict(cfg=cfg.d(), label=label, outcome=r['outcome'], stripes=n, grants=r['grants'][:8],
+                      model=t_out), nontrivial_key=nt, sample_every=23)
+    return results
+
+
+# (rows, cols, step, box, cores, nslice, mask) and the number of stripes the layout realises
+QUICK_CFGS = [
+    (Config(40, 24, 8, 24, 2, 2, True), 2),
+    (Config(60, 24, 8, 24, 3, 3, True), 3),
+    (Config(100, 24, 16, 32, 3, 3, True), 4),     # ledger 9: realised 4 > requested 3 = cores
+    (Config(64, 24, 8, 24, 2, 4, True), 4),       # ledger 9: cores=2, stripes=4
+    (Config(48, 24, 8, 24, 4, 4, False), 4),
+    (Config(108, 24, 49, 98, 2, 2, True), 3),     # float width 53 (exact 54): realised 3 > 2
+    (Config(30, 24, 8, 24, 1, 5, True), 1),       # cores == 1 forces one stripe
+    (Config(56, 24, 8, 24, 2, 7, True, 'filter_image'), 7),
+]
+
+LAYOUT_CORPUS = [(100, 16, 3, 3), (100, 16, 2, 4), (108, 49, 2, 2), (7, 1, 4, 4), (1, 16, 4, 4), (5, 16, 8, None),
+                 (3000, 7, 2, 39), (122, 7, 2, 2)]
+
+
+def layout_cases(ctx, wide):
+    rng = ctx.rng
+    cases = list(LAYOUT_CORPUS)
+    cases += [(rows, step, cores, ns) for rows in range(1, 41) for step in (1, 3, 16) for cores, ns in ((2, 2), (3, 5), (4, None), (1, 6))
+              if (rows + step + cores) % 2 == ctx.seed % 2 or rows < 8]
+    for _ in range(150 if not wide else 3000):
+        cores = rng.randint(1, 12)
+        cases.append((rng.randint(1, 5000), rng.choice([1, 2, 3, 5, 7, 8, 16, 20, 32, 49, 64]), cores,
+                      rng.choice([None, rng.randint(1, 40), cores])))
+    return cases
+
+
+def run(ctx):
+    common.use_repo()
+    layout_sweep(ctx, layout_cases(ctx, wide=not ctx.quick))
+    exit_paths(ctx)
+    plan = plan_runs(ctx, QUICK_CFGS, thorough=not ctx.quick)
+    execute(ctx, plan)
+
+
+def search(ctx):
+    """free-running sweep of (rows, step, cores, nslice): implementation vs Spec only"""
+    common.use_repo()
+    if any(f['kind'] == 'spec' for f in ctx.failures):
+        return
+    rng = ctx.rng
+    plan = []
+    for _ in range(10 if ctx.quick else 40):
+        cores = rng.randint(1, 4)
+        ns = rng.choice([None, rng.randint(1, 6)])
+        step = rng.choice([4, 8, 16])
+        cfg = Config(rng.randint(20, 120), 24, step, 3 * step, cores, ns, rng.random() < 0.8)
+        plan.append((cfg, None, (), 'log', 'search'))
+    saved = ctx.driver_ok
+    execute(ctx, plan)
+    ctx.driver_ok = saved
+
+
+def replay(ctx, rec):
+    common.use_repo()
+    c = rec['case']
+    if c.get('kind') == 'layout':
+        layout_sweep(ctx, [(c['rows'], c['step'], c['cores'], c['nslice'])])
+        return
+    if c.get('kind') == 'exitpath':
+        exit_paths(ctx)
+        return
+    cfg = Config.of(c['cfg'])
+    schedule = [tuple(x) for x in c.get('schedule') or []] or None
+    faults = tuple(tuple(x) for x in c.get('faults') or [])
+    hookmode = c.get('hook', 'log')
+    execute(ctx, [(cfg, schedule, faults, hookmode, 'replay')], parallel=1)
